@@ -1,5 +1,5 @@
 \* intended behaviour (all switches TRUE): TLC must pass
-\* thorough family A: path sets up to 3, up to 2 models; 3-change invocations: share C26_PART of C26_NPARTS
+\* thorough family A: path sets up to 3, up to 2 models; 3-change invocations: share C26_PART of C26_NPARTS (16)
 CONSTANTS MaxDev = 2  SampleDev = 3  MaxPaths = 3  MaxModels = 2  MaxModelsRich = 2  MaxOpts = 2
           CliCountsTranslateFailures = TRUE  CliCatchesTranslateErrors = TRUE  CliCountsMissingModelFile = TRUE
           Emit = FALSE  NParts <- NPartsEnv  Part <- PartEnv
